@@ -353,6 +353,9 @@ def stale_size(ck, S, rid):
                 us = site(u)
                 if us is None or rs is None:
                     continue
+                par_ = fn.nodes.get(fn.parent.get(u["id"]))
+                if isinstance(par_, dict) and par_.get("k") == "binop" and par_.get("op") == "=" and skip_copies(par_.get("lhs") or {}).get("id") == u["id"]:
+                    continue        # the holder is overwritten here, not read
                 n_uses += 1
                 for rc in rot_calls:
                     r_ = site(rc)
